@@ -84,6 +84,12 @@ Sandwich ==
 \* Laws (C10)
 Swap(cc) == [cc EXCEPT !.s1 = cc.s2, !.s2 = cc.s1,
                        !.psi = <<cc.psi[3], cc.psi[4], cc.psi[1], cc.psi[2]>>]
+\* the band predicate is the one of Layout.tla, whose symmetry LayoutProofs.tla proves for all sizes
+LY == INSTANCE Layout
+LayoutBandAgrees ==
+    stage >= 1 => \A i \in 0..(L1(c) - 1), j \in 0..(L2(c) - 1) :
+                     InBand(c, i, j) <=> LY!InBandL(i, j, L1(c), L2(c), Win(c))
+
 Laws ==
     stage = 2 =>
       /\ Opt(c) >= 0
